@@ -8,11 +8,13 @@ value per access, in program order; the locals `tail`/`head` live in the program
 
   push:  ldTail  `let tail = self.tail.load(Relaxed)`
          ldHead  `let head = self.head.load(Acquire); if tail.wrapping_sub(head) >= cap { return Err }`
-         write   `(*self.buffer[tail % cap].get()).write(value)`
+         write   `(*self.buffer[tail & mask].get()).write(value)`
          stTail  `self.tail.store(tail.wrapping_add(1), Release)`
   pop:   ldHead  `let head = self.head.load(Relaxed)`
-         ldTail  `let tail = self.tail.load(Acquire); if head == tail { return None }`
-         read    `(*self.buffer[head % cap].get()).assume_init_read()`
+         ldTail  `let tail = self.tail.load(Acquire); if head == tail { …`
+         retNone `… return None }`   (no access; a preemption point so that schedules can separate an
+                 empty `pop` from the caller's next access)
+         read    `(*self.buffer[head & mask].get()).assume_init_read()`
          stHead  `self.head.store(head.wrapping_add(1), Release)`
 
 Atomics are sequentially consistent here (each access is one indivisible step on one shared state);
@@ -45,6 +47,8 @@ theorem upd_other {α : Type} (f : Nat → α) (i j : Nat) (x : α) (h : j ≠ i
 
 structure Ring where
   cap : Nat
+  /-- `buffer.len() - 1`: the slot count is `capacity.next_power_of_two()` -/
+  mask : Nat
   W : Nat
   head : Nat
   tail : Nat
@@ -61,7 +65,7 @@ structure Ring where
 /-- `SpscRing::with_capacity(cap)` on a machine with word modulus `W`; `start` is 0 in the code
 (the `verif_with_start` hook starts both indices elsewhere to reach the wrap-around). -/
 def Ring.init (cap W start : Nat) : Ring :=
-  { cap, W, head := (start + spscInitHead) % W, tail := (start + spscInitTail) % W, slots := fun _ => none,
+  { cap, mask := nextPow2 cap - spscMaskDec, W, head := (start + spscInitHead) % W, tail := (start + spscInitTail) % W, slots := fun _ => none,
     log := [], tcount := start + spscInitTail, hcount := start + spscInitHead, outs := [], bad := [] }
 
 inductive PushPc
@@ -77,6 +81,11 @@ inductive PushOut
   | done
 deriving DecidableEq, Repr
 
+/-- number of slots (`buffer.len()`) -/
+def Ring.n (r : Ring) : Nat := r.mask + 1
+/-- slot index of a (wrapped) position: `index & self.mask` -/
+def Ring.idx (r : Ring) (x : Nat) : Nat := x &&& r.mask
+
 def Ring.writeSlot (r : Ring) (i : Nat) (v : Val) : Ring :=
   { r with slots := upd r.slots i (some v), log := r.log ++ [v],
            bad := if (r.slots i).isSome then r.bad ++ [Bad.overwrite i] else r.bad }
@@ -88,12 +97,13 @@ def Ring.storeTail (r : Ring) (tl : Nat) : Ring :=
 def pushStep (r : Ring) (v : Val) : PushPc → Ring × PushOut
   | .ldTail => (r, .cont (.ldHead r.tail))
   | .ldHead tl => if wsub r.W tl r.head ≥ r.cap then (r, .full) else (r, .cont (.write tl))
-  | .write tl => (r.writeSlot (tl % r.cap) v, .cont (.stTail tl))
+  | .write tl => (r.writeSlot (r.idx tl) v, .cont (.stTail tl))
   | .stTail tl => (r.storeTail tl, .done)
 
 inductive PopPc
   | ldHead
   | ldTail (hl : Nat)
+  | retNone                     -- queue found empty; pure preemption point before `return None`
   | read (hl : Nat)
   | stHead (hl : Nat) (v : Val)
 deriving DecidableEq, Repr
@@ -118,8 +128,9 @@ def Ring.storeHead (r : Ring) (hl : Nat) (v : Val) : Ring :=
 /-- one shared-memory access of `SpscRing::pop()` -/
 def popStep (r : Ring) : PopPc → Ring × PopOut
   | .ldHead => (r, .cont (.ldTail r.head))
-  | .ldTail hl => if hl = r.tail then (r, .empty) else (r, .cont (.read hl))
-  | .read hl => let (r', v) := r.readSlot (hl % r.cap); (r', .cont (.stHead hl v))
+  | .ldTail hl => if hl = r.tail then (r, .cont .retNone) else (r, .cont (.read hl))
+  | .retNone => (r, .empty)
+  | .read hl => let (r', v) := r.readSlot (r.idx hl); (r', .cont (.stHead hl v))
   | .stHead hl v => (r.storeHead hl v, .done v)
 
 /-- `SpscRing::is_empty()` (both loads in one step; see NOTES) -/
@@ -128,14 +139,14 @@ def Ring.isEmpty (r : Ring) : Bool := r.head == r.tail
 /-- `SpscRing::len()` -/
 def Ring.len (r : Ring) : Nat := r.tail - r.head
 
-/-- `impl Drop for SpscRing`: `while head != tail { slot[head % cap].assume_init_drop(); head += 1 }`.
+/-- `impl Drop for SpscRing`: `while head != tail { slot[head & mask].assume_init_drop(); head += 1 }`.
 Returns the ring after the loop and the values dropped, in order. The loop runs at most `W`
 times (`fuel`), because `head` returns to its start after `W` wrapping increments. -/
 def dropLoop (r : Ring) (acc : List Val) : Nat → Nat → Ring × List Val
   | 0, _ => (r, acc)
   | fuel + 1, h =>
     if h = r.tail then (r, acc) else
-      let (r', v) := r.readSlot (h % r.cap)
+      let (r', v) := r.readSlot (r.idx h)
       dropLoop r' (acc ++ [v]) fuel (wadd r.W h spscDropInc)
 
 def Ring.drop (r : Ring) : Ring × List Val := dropLoop r [] r.W r.head
